@@ -17,8 +17,8 @@
 //     SSA semantics (`c01frontcf runssa`) on three argument vectors: the outcome must be that of the reference semantics
 //     of the Wasm function (`c01frontcf run`: spec) - which must also equal the model's lowering and its optimised
 //     form (ssa, opt) - and the same on the text after the REAL builder.RunPasses() (`Jump fallthrough` = jump to the
-//     next block in layout order).  For functions with block parameters the reference semantics is not available:
-//     there the model's SSA, the model's optimised SSA, the real SSA and the real optimised SSA must agree.
+//     next block in layout order).  For functions with block parameters the reference semantics is run on the
+//     DESUGARED function (desugar.go: the parameters are saved in fresh locals; the real validator must accept it).
 //     The converted REAL output must pass `c01frontcf wfssa`.
 //
 // Replay: -replay FILE with {"fn": "<function text>"[, "args": ["<hex,…|->", …]]} or a report whose first violation
@@ -661,6 +661,16 @@ func (w *worker) check(j *job) {
 	} else {
 		rep.Count("wt:1")
 	}
+	var ds *fnDef
+	if !specOK {
+		ds = desugar(f)
+		if _, err := decodeValidate(ds); err != nil {
+			hx.Fatal("the desugared function is rejected by the real validator: %v\n  original:  %s\n  desugared: %s", err, text, ds.text())
+		}
+		if a := w.ask("c01frontcf wt " + ds.text()); a != "1" {
+			hx.Fatal("the desugared function is not wellTyped for the model: %s", ds.text())
+		}
+	}
 	if specOK {
 		// the checker whose success implies the refinement theorem for this function (frontcf_refines_validated)
 		if a := w.ask("c01frontcf validate " + text); a != "1" {
@@ -749,9 +759,16 @@ func (w *worker) check(j *job) {
 		spec, mssa, mopt := parts[0][5:], parts[1][4:], parts[2][4:]
 		ref := spec
 		if !specOK {
-			// the reference semantics has no block parameters: the model's SSA is the reference here
-			ref = mssa
-			rep.Count("out:no-spec(block-params)")
+			// the reference semantics has no block parameters: it is run on the DESUGARED function (parameters saved
+			// in fresh locals), which the real validator accepted above
+			a2 := w.ask(fmt.Sprintf("c01frontcf run %s %s %s %s %s", tysText(ds.params), tysText(ds.results), tysText(ds.locals), av, ds.bodyText()))
+			p2 := strings.Fields(a2)
+			if len(p2) != 3 || !strings.HasPrefix(p2[0], "spec=") {
+				hx.Fatal("c01frontcf run answered %q", a2)
+			}
+			ref = p2[0][5:]
+			spec = ref
+			rep.Count("out:spec-of-desugared(block-params)")
 		}
 		outcome := "out:" + ref
 		if strings.HasPrefix(ref, "ok:") {
@@ -941,7 +958,7 @@ func main() {
 	if err := checkOpcodeTable(); err != nil {
 		hx.Fatal("%v", err)
 	}
-	rep = hx.NewReport("C01", "front-end tie on structured control flow: generated well-typed functions (0..3 params, 0..2 results, 0..5 locals of i32/i64; nested block / loop / if with or without else, block types with 0..2 results and - in a quarter of the functions - parameters taken from the stack; br and br_if to every enclosing label incl. the function's and loop headers, backward branches bounded by a reserved counter local so that every call terminates; return, unreachable, dead code after them incl. nested blocks; the straight-line integer instructions of hfront in between, locals written in branches and loop bodies and read after the joins) plus a hand-written corpus; each is encoded as a real module, accepted by the REAL decoder+validator, lowered by the REAL frontend.Compiler.LowerToSSA; Format() == `c01frontcf lower` line by line (block ids, parameters, predecessor lists, value ids, branch arguments); REAL alias table == model's; wt / wf accept; Lean SSA semantics of the REAL output (before and after the REAL RunPasses) == reference semantics == model's lowering (plain / optimised) on 3 argument vectors; functions with block parameters: the four SSA runs agree (no reference semantics); distinct = distinct function texts")
+	rep = hx.NewReport("C01", "front-end tie on structured control flow: generated well-typed functions (0..3 params, 0..2 results, 0..5 locals of i32/i64; nested block / loop / if with or without else, block types with 0..2 results and - in a quarter of the functions - parameters taken from the stack; br and br_if to every enclosing label incl. the function's and loop headers, backward branches bounded by a reserved counter local so that every call terminates; return, unreachable, dead code after them incl. nested blocks; the straight-line integer instructions of hfront in between, locals written in branches and loop bodies and read after the joins) plus a hand-written corpus; each is encoded as a real module, accepted by the REAL decoder+validator, lowered by the REAL frontend.Compiler.LowerToSSA; Format() == `c01frontcf lower` line by line (block ids, parameters, predecessor lists, value ids, branch arguments); REAL alias table == model's; wt / wf accept; Lean SSA semantics of the REAL output (before and after the REAL RunPasses) == reference semantics == model's lowering (plain / optimised) on 3 argument vectors; functions with block parameters: the reference semantics is run on the desugared function (parameters saved in fresh locals); distinct = distinct function texts")
 	if *mutate != 0 {
 		rep.Note("SELF-TEST: -mutate %d perturbs the real output; violations are expected", *mutate)
 	}
